@@ -118,6 +118,55 @@ def classify_hmm(case, ctx=None, n1=4000):
     return fails, info
 
 
+def hmm_scaled_forward(obs, pi, A, B):
+    """float64 scaled forward recursion (independent of genjax): filtering distributions and log marginal for long sequences;
+    itself compared with brute force on a prefix by classify_hmm_long."""
+    a = pi * B[:, obs[0]]
+    lm, out = 0.0, []
+    for t in range(len(obs)):
+        if t:
+            a = (a @ A) * B[:, obs[t]]
+        s = a.sum()
+        if not s > 0:
+            return None, -np.inf
+        lm += math.log(s)
+        a = a / s
+        out.append(a.copy())
+    return np.array(out), lm
+
+
+def classify_hmm_long(case):
+    """Long observation sequences / very unlikely symbols: the unnormalised forward messages leave the float32 range."""
+    import jax.numpy as jnp
+    from genjax.extras import state_space as S
+
+    pi32, A32, B32 = (np.asarray(case[k], dtype=np.float32) for k in ("pi", "A", "B"))
+    pi, A, B = pi32.astype(np.float64), A32.astype(np.float64), B32.astype(np.float64)
+    obs = np.asarray(case["obs"], dtype=np.int64)
+    T = len(obs)
+    C = f"long:{'rare' if case.get('rare') else 'dense'}"
+    fails, info = [], {"model": "hmm_long", "K": len(pi), "M": B.shape[1], "T": T, "sparse": False}
+    filt, lm_ref = hmm_scaled_forward(obs, pi, A, B)
+    # the reference agrees with brute force on a short prefix
+    seqs, joint = hmm_bruteforce(obs[:5], pi, A, B)
+    f5, lm5 = hmm_scaled_forward(obs[:5], pi, A, B)
+    if abs(lm5 - math.log(joint.sum())) > 1e-9 * max(1.0, abs(lm5)):
+        raise RuntimeError("C20 harness: scaled forward recursion disagrees with brute force")
+    info["log_marginal"] = lm_ref
+    try:
+        alpha, lm = impl(S.forward_filter, jnp.asarray(obs.astype(np.int32)), jnp.asarray(pi32), jnp.asarray(A32), jnp.asarray(B32))
+    except ImplError as e:
+        return [(f"hmm.forward_filter_raises:{e.sig()}:{C}", str(e))], info
+    lm = float(lm)
+    if not abs(lm - lm_ref) <= 5e-3 + 3e-5 * abs(lm_ref):
+        fails.append((f"hmm.log_marginal:{C}", f"T={T}: forward_filter log marginal {lm} != float64 scaled forward recursion {lm_ref}"))
+    got = np.exp(np.asarray(alpha, dtype=np.float64))
+    if got.shape != filt.shape or np.any(~np.isfinite(got)) or not np.all(np.abs(got - filt) <= 1e-4 + 2e-3 * filt):
+        t = int(np.argmax(np.max(np.abs(np.nan_to_num(got, nan=9) - filt), axis=1))) if got.shape == filt.shape else -1
+        fails.append((f"hmm.filtering:{C}", f"T={T}: p(x_t|y_1:t) at t={t}: forward_filter {got[t].tolist() if t >= 0 else got.shape} != reference {filt[t].tolist() if t >= 0 else filt.shape}"))
+    return fails, info
+
+
 # ----------------------------------------------------------------------------- linear Gaussian
 def lg_joint(m0, P0, A, Q, Cm, R, T):
     ds, do = len(m0), Cm.shape[0]
@@ -252,6 +301,26 @@ def cases():
             obs.append(int(rng.choice(M, p=np.asarray(B[s]) / np.sum(B[s]))))
         return {"kind": "hmm", "pi": pi, "A": A, "B": B, "obs": obs, "key": key}
 
+    @st.composite
+    def hmm_long(draw):
+        K, M = draw(st.integers(2, 4)), draw(st.integers(2, 4))
+        rare = draw(st.booleans())
+        T = draw(st.sampled_from([12, 30])) if rare else draw(st.sampled_from([80, 200, 500]))
+        pi = stoch_row(draw, K, False)
+        A = [stoch_row(draw, K, False) for _ in range(K)]
+        B = [stoch_row(draw, M, False) for _ in range(K)]
+        key = draw(st.integers(0, 2**30))
+        rng = np.random.default_rng(key)
+        if rare:  # one symbol is emitted with probability ~1e-9 by every state, and observed repeatedly
+            for row in B:
+                row[0] = 1e-9 * (1 + rng.random())
+                s = sum(row[1:])
+                row[1:] = [x * (1 - row[0]) / s for x in row[1:]]
+            obs = [0 if rng.random() < 0.5 else int(rng.integers(1, M)) for _ in range(T)]
+        else:
+            obs = [int(x) for x in rng.integers(0, M, size=T)]
+        return {"kind": "hmm_long", "rare": rare, "pi": pi, "A": A, "B": B, "obs": obs, "key": key}
+
     e = st.floats(-1.0, 1.0, allow_nan=False, width=32).map(lambda x: round(x, 2))
 
     def spd(draw, d):
@@ -272,7 +341,7 @@ def cases():
         case["Y"] = Y.round(3).tolist()
         return case
 
-    return st.one_of(hmm(), lg())
+    return st.one_of(hmm(), hmm(), lg(), lg(), hmm_long())
 
 
 def run_shard(ctx):
@@ -286,6 +355,10 @@ def run_shard(ctx):
             fails, info = classify_hmm(case, ctx, P["n1"] if cnt[0] % P["stat_every"] == 0 else 0)
             nt = info["T"] >= 2 and (info["sparse"] or info["K"] != info["M"])
             cls = ["C20.hmm", f"C20.hmm_{'sparse' if info['sparse'] else 'dense'}", f"C20.hmm_T{'1' if info['T'] == 1 else '>1'}"]
+        elif case["kind"] == "hmm_long":
+            fails, info = classify_hmm_long(case)
+            nt = True
+            cls = ["C20.hmm_long", f"C20.hmm_long_{'rare_symbol' if case.get('rare') else 'T>=80'}"]
         else:
             fails, info = classify_lg(case)
             nt = info["T"] >= 2 and info["d_state"] != info["d_obs"]
@@ -298,4 +371,6 @@ def run_shard(ctx):
 
 
 def replay(case):
+    if case["kind"] == "hmm_long":
+        return classify_hmm_long(case)[0]
     return (classify_hmm(case, None, 4000) if case["kind"] == "hmm" else classify_lg(case))[0]
